@@ -10,7 +10,10 @@
    Two interpretations use this syntax: Spec/SpecWrappers.v (gen/Wrappers.v, the wrappers of
    template.go; it covers the constructors above the line "second fragment" only, the others are
    stuck there) and Spec/SpecSetFuncs.v (gen/SetFuncs.v, the template set's functions of
-   template_sets.go), which needs maps, a mutex, defer, a range loop and boolean operators. *)
+   template_sets.go), which needs maps, a mutex, defer, a range loop and boolean operators.
+   A third one, Spec/SpecLoaderFuncs.v (gen/LoaderFuncs.v, the loader lookup of template_sets.go),
+   needs the constructors below the line "third fragment" as well; they are stuck in the other
+   two interpretations. *)
 From Coq Require Export String List.
 Export ListNotations.
 
@@ -38,7 +41,9 @@ Inductive gexpr :=
 | GELen (e : gexpr)                                       (* len(e) *)
 | GEIndexOk (m k : gexpr)                                 (* m[k] in "v, ok := m[k]" / "v, ok = m[k]": two values *)
 | GEMakeMap                                               (* make(map[K]V[, hint]) - a fresh empty map; the hint is dropped *)
-| GEAddr (e : gexpr).                                     (* &e, e a field selection *)
+| GEAddr (e : gexpr)                                      (* &e, e a field selection *)
+(* --- third fragment (tools/go2v/loaderfuncs.go) --- *)
+| GEIndex (e i : gexpr).                                  (* e[i], one value; panics when i is out of range *)
 
 Inductive gstmt :=
 | GSDefine (lhs : list string) (rhs : list gexpr)         (* a, b := e   or   a, b := e1, e2 *)
@@ -54,7 +59,16 @@ Inductive gstmt :=
 | GSDelete (m k : gexpr)                                  (* delete(m, k) *)
 | GSRange (key val : string) (coll : gexpr) (body : list gstmt)
                                                           (* for key, val := range coll { body }  ("_" discards; no break/continue) *)
-| GSDefer (call : gexpr).                                 (* defer recv.m(args) *)
+| GSDefer (call : gexpr)                                  (* defer recv.m(args) *)
+(* --- third fragment --- *)
+| GSVar (names : list string) (ty : string)               (* var a, b T  - declared with the zero value of T *)
+| GSRangeSet (key val : string) (coll : gexpr) (body : list gstmt)
+                                                          (* for key, val = range coll { body }: assigns existing
+                                                             variables ("_" discards); a return in the body of either
+                                                             range form leaves the function *)
+| GSResults (decls : list (string * string)).             (* the named results (name, type) of the function, as the first
+                                                             statement of its body: variables of the function's scope with
+                                                             their zero values; GSReturn [] returns their current values *)
 
 (* func (recvname *recvtype) name(params) (nres results) { body } *)
 Record gfunc := mkGF {
